@@ -78,6 +78,7 @@ structure TimeV where
 inductive EVal where
   | int (i : Int)
   | str (s : Str)
+  | tuple (xs : List Int)       -- a member value JSON cannot carry in its own type (written as an array)
   deriving DecidableEq, Repr
 
 inductive Mixin where
@@ -376,6 +377,7 @@ def fromDecimal (cfg : Cfg) (P : Prims) (d : Dec) : Js :=
 def EVal.toJson : EVal → Js
   | .int i => .int i
   | .str s => .str s
+  | .tuple xs => .arr (xs.map Js.int)      -- from_enum gives the tuple, json writes a list
 
 /-- how `json.dumps` writes a dict key: `str`, `int` (→ `str(i)`) -/
 def Key.toStr : Key → Str
@@ -467,7 +469,9 @@ def firstFormat (P : Prims) (s suffix : Str) : List Str → Option DateTime
     | none => firstFormat P s suffix fs
 
 /-- `to_datetime(data: str)`, transform.py:508-560 -/
-def toDatetime (cfg : Cfg) (P : Prims) (dateFirst : Bool) (data : Str) : Res DateTime :=
+def epochUtc : DateTime := ⟨⟨1970, 1, 1⟩, midnight, some 0⟩
+
+def toDatetime (cfg : Cfg) (m : Mode) (P : Prims) (dateFirst : Bool) (data : Str) : Res DateTime :=
   let isUtc := contains "GMT".toList data || contains "UTC".toList data
                 || (endsWith ['Z'] data && contains ['T'] data)
   let data := strip (rstripChar 'Z' (removeAll "TZD".toList (removeAll "UTC".toList (removeAll "GMT".toList data))))
@@ -481,29 +485,34 @@ def toDatetime (cfg : Cfg) (P : Prims) (dateFirst : Bool) (data : Str) : Res Dat
     match (if signed then firstFormat P data (if spaced then " %z".toList else "%z".toList) formats else none) with
     | some v => .ok (fixTz v)
     | none =>
-      if P.floatParses data then .unmodelled "datetime from a numeric string (timestamp)"
+      -- `self.to_float(data)`: refused under no_explicit_cast; `not data → 0` (transform.py:178-181), so what is
+      -- left of "", "Z", "GMT" is the epoch; otherwise `float(data)`
+      if m.noExplicitCast then .perr
+      else if data.isEmpty then .ok epochUtc
+      else if P.floatParses data then .unmodelled "datetime from a numeric string (timestamp)"
       else .perr                                            -- TypeError('invalid datetime')
 
 /-- `to_date(data: str)`, transform.py:491-506 -/
 def toDate (cfg : Cfg) (m : Mode) (P : Prims) (data : Str) : Res Date := do
-  let dt ← toDatetime cfg P true data
+  let dt ← toDatetime cfg m P true data
   if m.noDataLoss && !(dt.clock == midnight) then .perr     -- "got time part"
   else pure dt.date
 
 /-- `to_time(data: str)`, transform.py:603-620 -/
-def toTime (cfg : Cfg) (P : Prims) (data : Str) : Res TimeV :=
+def toTime (cfg : Cfg) (m : Mode) (P : Prims) (data : Str) : Res TimeV :=
   if contains [':'] data then
     match P.timeFromIso data with
     | some t => .ok t
     | none => do                                           -- except ValueError
-      let dt ← toDatetime cfg P false ("1970-01-01 ".toList ++ data)
+      let dt ← toDatetime cfg m P false ("1970-01-01 ".toList ++ data)
       pure ⟨dt.clock, none⟩                                -- .time() drops the tzinfo
   else .perr
 
 /-- `to_timedelta(data: str)`, transform.py:561-601 -/
 def toTimedelta (m : Mode) (P : Prims) (data : Str) : Res Int :=
   -- to_float(str) raises under no_explicit_cast and the code moves on to the patterns
-  if !m.noExplicitCast && P.floatParses data then .unmodelled "timedelta from a numeric string"
+  if !m.noExplicitCast && data.isEmpty then .ok 0           -- to_float("") is 0: timedelta(seconds=0)
+  else if !m.noExplicitCast && P.floatParses data then .unmodelled "timedelta from a numeric string"
   else if P.reDuration0 data then .unmodelled "DURATION_REGS[0]"
   else match P.reDurationIso data with
     | some g =>
@@ -582,6 +591,9 @@ def toEnum (cfg : Cfg) (m : Mode) (decl : EnumDecl) (j : Js) : Res Nat :=
     else match byName s with                                 -- before the repair: `data in t.__members__` first
       | some n => .ok n
       | none => conv (.str s)
+  | .arr _ =>
+    -- `t([..])`: a list is no member value (a tuple value is not equal to it): ValueError; no name fallback for a non-str
+    (match decl.mixin with | .none => .perr | _ => .unmodelled "enum mixin conversion")
   | _ => .unmodelled "enum from a non-scalar"
 
 def Js.isContainer : Js → Bool
@@ -603,7 +615,8 @@ def Dec.canon : Dec → Dec
   | d => d
 
 mutual
-/-- canonical representative of a value under Python's `==` (only Decimals have several representations) -/
+/-- canonical representative of a value: structural equality up to the representation of a Decimal (finer than
+Python's `==`, which also identifies aware datetimes of one instant and `0.0 == -0.0`) -/
 def Val.canon : Val → Val
   | .dec d => .dec d.canon
   | .list xs => .list (canonList xs)
@@ -717,11 +730,18 @@ def acceptsFF (cin : List Str) (f : FieldMeta) (k : Str) : Bool := f.aliases.con
 /-- Python `str.islower` on ASCII: some cased character and no upper-case one -/
 def isLower (s : Str) : Bool := s.any Char.isLower && !s.any Char.isUpper
 
-/-- `fields[key]` / `field_alias_map[key]` without the case fall-back -/
+/-- the key of `parser.fields`: the output name, lower-cased for a case-insensitive field (cls.py:205-217) -/
+def FieldMeta.key (f : FieldMeta) : Str := if f.ci then lower f.name else f.name
+
+/-- `field.aliases` after `setup`: the accepted keys other than the name, lower-cased for a case-insensitive field -/
+def FieldMeta.al (f : FieldMeta) : List Str :=
+  (f.keys.filter (fun k => !(k == f.name))).map (fun k => if f.ci then lower k else k)
+
+/-- `fields[key]` / `field_alias_map[key]` without the case fall-back (base.py:141-145) -/
 def getFieldExact (ms : List FieldMeta) (k : Str) : Option FieldMeta :=
-  match ms.find? (fun f => f.name == k) with
+  match ms.find? (fun f => f.key == k) with
   | some f => some f
-  | none => ms.find? (fun f => (f.aliases.filter (fun a => !(a == f.name))).contains k)
+  | none => ms.find? (fun f => (f.al.filter (fun a => !(a == f.key))).contains k)
 
 /-- data-first search: `parser.get_field(key)` -/
 def getField (ms : List FieldMeta) (k : Str) : Option FieldMeta :=
@@ -748,6 +768,30 @@ def findValue (p : Str → Bool) (kvs : List (Str × Js)) : Found :=
 no other (`f` and `g` range over the fields; output names identify fields) -/
 def keysAccepted (ms : List FieldMeta) (dataFirst : Bool) : Bool :=
   ms.all fun f => ms.all fun g => takes ms dataFirst f g.name == (f.name == g.name)
+
+def distinct {α : Type} [BEq α] : List α → Bool
+  | [] => true
+  | x :: xs => !(xs.contains x) && distinct xs
+
+/-- `field_alias_map` is built without a clash (base.py:297-309) -/
+def aliasMapOk (seen : List Str) : List FieldMeta → Bool
+  | [] => true
+  | f :: r =>
+    let own := (f.al.filter (fun a => !(a == f.key))).eraseDups
+    own.all (fun a => !seen.contains a) && aliasMapOk (own ++ seen) r
+
+/-- the conditions under which utype accepts a declaration (otherwise `ConfigError` at class creation), stated on
+the declaration alone: `all_aliases` starts with the output name (field.py:464-476); output names and `fields` keys
+are distinct (cls.py:205-217); no alias is the key of a field (`apply_fields`, field.py:701-706); aliases do not
+clash (`generate_aliases`, base.py:297-309); a case-sensitive field does not meet a case-insensitive name in any
+letter case (base.py:316-332) -/
+def declChecked (ms : List FieldMeta) : Bool :=
+  ms.all (fun f => f.keys.contains f.name)
+  && distinct (ms.map (·.name))
+  && distinct (ms.map FieldMeta.key)
+  && ms.all (fun f => f.al.all fun a => !(ms.map FieldMeta.key).contains a)
+  && aliasMapOk [] ms
+  && ((ciNames ms).isEmpty || ms.all fun f => f.ci || (f.al.map lower ++ [lower f.key]).all fun a => !(ciNames ms).contains a)
 
 def intOf : Val → Option Int
   | .int i => some i
@@ -808,11 +852,11 @@ def parse (cfg : Cfg) (P : Prims) (m : Mode) (d : Nat) : Ty → Js → Res Val
     | .null => .perr
     | _ => .unmodelled "date from a number/container"
   | .datetime, j => match j with
-    | .str s => do pure (.datetime (← toDatetime cfg P false s))
+    | .str s => do pure (.datetime (← toDatetime cfg m P false s))
     | .null => .perr
     | _ => .unmodelled "datetime from a number/container"
   | .time, j => match j with
-    | .str s => do pure (.time (← toTime cfg P s))
+    | .str s => do pure (.time (← toTime cfg m P s))
     | _ => .unmodelled "time from a non-str"
   | .delta, j => match j with
     | .str s => do pure (.delta (← toTimedelta m P s))
@@ -921,7 +965,14 @@ def parseText (cfg : Cfg) (P : Prims) (fs : List (FieldMeta × Ty)) (o : ClassOp
 
 /-! ### the stated domain -/
 
-def Date.valid (d : Date) : Bool := 1 ≤ d.y && d.y ≤ 9999 && 1 ≤ d.m && d.m ≤ 12 && 1 ≤ d.d && d.d ≤ 31
+def isLeap (y : Nat) : Bool := y % 4 == 0 && (y % 100 != 0 || y % 400 == 0)
+
+/-- days of month `m` of year `y` (proleptic Gregorian calendar, as `datetime.date`) -/
+def daysIn (y m : Nat) : Nat :=
+  if m == 2 then (if isLeap y then 29 else 28)
+  else if m == 4 || m == 6 || m == 9 || m == 11 then 30 else 31
+
+def Date.valid (d : Date) : Bool := 1 ≤ d.y && d.y ≤ 9999 && 1 ≤ d.m && d.m ≤ 12 && 1 ≤ d.d && d.d ≤ daysIn d.y d.m
 def Clock.valid (c : Clock) : Bool := c.h < 24 && c.mi < 60 && c.s < 60 && c.us < 1000000
 def tzValid : Option Int → Bool
   | none => true
@@ -940,9 +991,14 @@ def maxDelta : Nat := 86400000000 * 1000000000     -- |timedelta| < 10^9 days
 /-- "UTF-8 bytes" -/
 def validUtf8 (b : List UInt8) : Bool := (ByteArray.mk b.toArray).validateUTF8
 
+/-- the exponents CPython's `decimal` can hold (|adjusted exponent| ≤ 999999999999999999), with room for the digits -/
+def Dec.expOk : Dec → Bool
+  | .fin _ _ e => decide (e.natAbs < 10 ^ 17)
+  | _ => true
+
 /-- "Decimal up to 15 significant digits"; before the `decTiny` repair: not below the normal float range -/
 def Dec.inDomain (cfg : Cfg) : Dec → Bool
-  | .fin _ c e => c < 10 ^ 15 && (cfg.decTiny || !(decTiny c e))
+  | .fin _ c e => c < 10 ^ 15 && decide (e.natAbs < 10 ^ 17) && (cfg.decTiny || !(decTiny c e))
   | .inf _ => true
   | .nan => false
 
@@ -955,15 +1011,17 @@ def EnumDecl.shadow (decl : EnumDecl) (i : Nat) : Bool :=
     | none => false
   | _ => false
 
-def distinct {α : Type} [BEq α] : List α → Bool
-  | [] => true
-  | x :: xs => !(xs.contains x) && distinct xs
-
 def EnumDecl.wf (decl : EnumDecl) : Bool :=
   -- distinct values (aliases are one member), distinct names, values of the mixin's type
   distinct (decl.members.map (·.2)) && distinct (decl.members.map (·.1)) &&
   decl.members.all (fun m => match decl.mixin, m.2 with
-    | .none, _ => true | .int, .int _ => true | .str, .str _ => true | _, _ => false)
+    | .none, .tuple _ => false                -- `KnownDefect` `EnumDecl.nonJsonValue`
+    | .none, _ => true | .int, .int i => decide (i.natAbs < 10 ^ 4300) | .str, .str _ => true | _, _ => false)
+
+/-- `KnownDefect`: a member whose value JSON cannot carry in its own type (a tuple is written as an array and
+`E([1, 2])` is not `E((1, 2))`) -/
+def EnumDecl.nonJsonValue (decl : EnumDecl) : Bool :=
+  decl.members.any (fun m => match m.2 with | .tuple _ => true | _ => false)
 
 def Key.hasTy : KeyTy → Key → Bool
   | .str, .str _ => true
@@ -979,7 +1037,7 @@ mutual
 def inDomain (cfg : Cfg) (d : Nat) : Ty → Val → Bool
   | .none, v => match v with | .none => true | _ => false
   | .bool, v => match v with | .bool _ => true | _ => false
-  | .int, v => match v with | .int _ => true | _ => false
+  | .int, v => match v with | .int i => decide (i.natAbs < 10 ^ 4300) | _ => false     -- CPython's int/str digit limit
   | .float, v => match v with | .float f => !f.isNan | _ => false
   | .str, v => match v with | .str _ => true | _ => false
   | .bytes, v => match v with | .bytes b => validUtf8 b | _ => false
@@ -1005,8 +1063,8 @@ def inDomain (cfg : Cfg) (d : Nat) : Ty → Val → Bool
     | .dict kvs => kvs.all (fun kv => kv.1.hasTy k && inDomain cfg d t kv.2) && distinct (kvs.map (·.1))
     | _ => false
   | .data fs o, v => match v with
-    -- within the depth limit; the declaration resolves its own output names; every field as its kind requires
-    | .data vs => !tooDeep o (d + 1) && keysAccepted (fs.map (·.1)) o.dataFirst && distinct (fs.map (·.1.name))
+    -- within the depth limit; a declaration utype accepts; every field as its kind requires
+    | .data vs => !tooDeep o (d + 1) && declChecked (fs.map (·.1)) && distinct (fs.map (·.1.name))
         && inDomainFields cfg (d + 1) [] fs vs
     | _ => false
   | .cut, _ => false
@@ -1162,7 +1220,7 @@ structure PrimLaws (P : Prims) : Prop where
     ∧ (P.floatOfDec (.fin neg c e)).isZero = (c == 0)
     ∧ (P.decOfFloat (P.floatOfDec (.fin neg c e))).canon = (Dec.fin neg c e).canon
   /-- `Decimal(str(d))` is `d`; `str(d)` is non-empty and has no surrounding whitespace -/
-  dec_str : ∀ d : Dec, P.decOfStr (P.decStr d) = some d
+  dec_str : ∀ d : Dec, d.expOk = true → P.decOfStr (P.decStr d) = some d
   dec_str_clean : ∀ d : Dec, strip (P.decStr d) = P.decStr d ∧ P.decStr d ≠ []
   /-- `Decimal(str(i))` for an int -/
   dec_int : ∀ i : Int, P.decOfStr (intStr i) = some (.fin (decide (i < 0)) i.natAbs 0)
